@@ -121,7 +121,9 @@ func c07HasUnknown(q *carddav.AddressBookQuery) bool {
 	if q == nil {
 		return false
 	}
-	known := func(t carddav.FilterTest) bool { return t == "" || t == carddav.FilterAnyOf || t == carddav.FilterAllOf }
+	known := func(t carddav.FilterTest) bool {
+		return t == "" || t == carddav.FilterAnyOf || t == carddav.FilterAllOf
+	}
 	if !known(q.FilterTest) {
 		return true
 	}
